@@ -110,6 +110,19 @@ def _mut_work(args):
 CONTEXT_SETS = [CONTEXTS, DEFCTX, SPECCTX]
 
 
+def _unit_mut_work(args):
+    toks, seed = args
+    rnd = random.Random(seed)
+    bad = []
+    n = 0
+    for src in [" ".join(toks)] + token_mutants(toks, CORE, rnd, 3):
+        n += 1
+        k, detail = classify(src, "f.c", check_loc=False)
+        if k.startswith("bad") and k != "bad:location-prefix":
+            bad.append((src, k, detail))
+    return n, bad
+
+
 def text_of(seq, c, cs=0):
     pre, post = CONTEXT_SETS[cs][c]
     return " ".join(pre + seq + post)
@@ -252,6 +265,19 @@ def run(tier):
             ctx.fail(sig_of(k, detail, src), dict(kind="text", text=src))
     ctx.count(n, nontrivial=len(progs), traces=n)
     ctx.note("population_token_mutants_of_valid_programs", dict(programs=len(progs), mutants=n))
+    # long inputs (units of 20-250 derived programs) with one token-level mutation somewhere
+    ujobs = []
+    for _ in range(400 if tier == "quick" else 6000):
+        parts = [rnd.choice(progs) for _ in range(rnd.randint(20, 250))]
+        toks = [t for p in parts for t in p]
+        ujobs.append((toks, rnd.randrange(1 << 30)))
+    n = 0
+    for cnt, bad in pmap(_unit_mut_work, ujobs, chunk=4):
+        n += cnt
+        for src, k, detail in bad:
+            ctx.fail(sig_of(k, detail, src[-200:]), dict(kind="text", text=src))
+    ctx.count(n, nontrivial=len(ujobs), traces=n)
+    ctx.note("population_long_units_with_one_mutation", dict(units=len(ujobs), parses=n))
     # noise
     texts = noise_population(ctx, tier)
     chunks = [texts[i:i + 2000] for i in range(0, len(texts), 2000)]
